@@ -12,7 +12,7 @@
                 2 = any other difference, or a marshal / load error
      zero_default  the configuration has a zero-valued field whose loader default is not zero (trigger class of
                 C37-3, computed by reflection in the harness)
-   holds_C37: the accept/reject decision is the documented one (by C37_iff: spec_validate c = [] iff no
+   holds_C37: the accept/reject decision is the documented one (by C37_iff: impl_validate c = [] iff no
    documented constraint is broken) and an accepted configuration survived the round trip. *)
 From Coq Require Import List NArith Bool.
 From Verif Require Import Base.Verdict Model.ConfigValidate.
@@ -23,16 +23,16 @@ Record case := mk { c : cfg; obs_errs : list clause; obs_warns : list clause; rt
 Definition is_nil {A : Type} (l : list A) : bool := match l with [] => true | _ => false end.
 
 Definition holds_C37 (k : case) : bool :=
-  Bool.eqb (is_nil (obs_errs k)) (is_nil (spec_validate (c k)))
+  Bool.eqb (is_nil (obs_errs k)) (is_nil (impl_validate (c k)))
   && negb (is_nil (obs_errs k) && (N.eqb (rt k) 2 || N.eqb (rt k) 3)).
 
+(* Findings C37-1 (NaN ops) and C37-2 (forced-host keys differing in case) are fixed: impl_validate is today's code
+   and equals the specified validator, so a recurrence of either is judged like any other deviation (VViolation if
+   the accept/reject decision is wrong, VMismatch otherwise).  Only C37-3 (round trip) is still a known finding. *)
 Definition judge (k : case) : verdict :=
   let warns_ok := same_clauses (obs_warns k) (warnings (c k)) in
-  let as_spec := same_clauses (obs_errs k) (spec_validate (c k)) && warns_ok in
   let as_impl := same_clauses (obs_errs k) (impl_validate (c k)) && warns_ok in
-  if as_spec && holds_C37 k then VOk
-  else if as_impl && nan_quota (c k) then VKnown 1
-  else if as_impl && forced_dup_trigger (c k) then VKnown 2
-  else if as_spec && is_nil (obs_errs k) && N.eqb (rt k) 3 && zero_default k then VKnown 3
+  if as_impl && holds_C37 k then VOk
+  else if as_impl && is_nil (obs_errs k) && N.eqb (rt k) 3 && zero_default k then VKnown 3
   else if holds_C37 k then VMismatch
   else VViolation.
